@@ -347,6 +347,9 @@ func (x *Unit) readPath(st *State, v Val, path []int) Val {
 		x.u.DeclFun("chantype", "(Int) Int")
 		x.fact(Or(Eq(r.T, IntLit(0)), Eq(App(SInt, "chantype", r.T), IntLit(int64(x.u.TypeID(ct.Elem()))))))
 	}
+	if x.binders == 0 && r.Sort == SInt && isUnsigned(r.Typ) {
+		x.fact(Cmp(">=", r.T, IntLit(0)))
+	}
 	// references stored in a state were allocated by the time of that state
 	if x.binders == 0 && r.Sort == SInt {
 		switch under(r.Typ).(type) {
@@ -682,6 +685,15 @@ func (x *Unit) spCall(st *State, e *ast.CallExpr, c *specCtx) Val {
 		}
 		x.specErr(e, "no argument %s at this call site", id.Name)
 		return Val{x.fresh("bad", SInt), nil}
+	case "errors.Is":
+		a, b := arg(0), arg(1)
+		if a.Sort != SIface {
+			a = x.convert(st, a, types.Universe.Lookup("error").Type())
+		}
+		if b.Sort != SIface {
+			b = x.convert(st, b, types.Universe.Lookup("error").Type())
+		}
+		return Val{x.errIs(a.T, b.T), boolT}
 	case "cause":
 		a := arg(0)
 		return Val{x.uf("errcause", SIface, a.T), a.Typ}
